@@ -76,9 +76,11 @@ ThmOptimize ==
 (***************************************************************************)
 (* STATIC CONTENT (C07).  A request path is a sequence of segments over     *)
 (* classes; the file system below and around the root is fixed:             *)
-(*   <parent2>/canary2.txt                                                  *)
-(*   <parent2>/<parent>/canary.txt                                          *)
-(*   <parent2>/<parent>/root/{index.html, a.txt, sub/{index.html, b.txt}}   *)
+(*   <parent2>/{canary2.txt, secret.txt.gz, index.html.gz}                  *)
+(*   <parent2>/<parent>/{canary.txt, index.html, secret.txt.br}             *)
+(*   <parent2>/<parent>/root/{index.html, a.txt, c.txt.br,                  *)
+(*                            sub/{index.html, b.txt, d.txt.gz}}            *)
+(* (x.br / x.gz are precompressed siblings the folder source serves for x.) *)
 (* Kernel path resolution of the joined path decides which file a naive     *)
 (* join would reach; THE PROPERTY: whatever is served lies inside the root. *)
 (* A response is identified by the file whose content it carries: "in:<f>"  *)
@@ -98,7 +100,7 @@ Walk(segs, i, depth) ==
 
 StaticFails(q, r) ==
     IF r.status = -1 THEN {"dropped_connection"}
-    ELSE Fails("served_outside_root", ~(r.status = 200 /\ r.file \in {"out:canary", "out:canary2", "out:other"})) \cup
+    ELSE Fails("served_outside_root", ~(r.status = 200 /\ r.outside = 1)) \cup
          \* a path that resolves outside the root yields 404
          Fails("escape_not_404", Walk(q.segs, 1, 0) = "inside" \/ r.status = 404) \cup
          \* sanity of the binding: plain paths inside the root are served (otherwise the check would be vacuous)
